@@ -134,6 +134,13 @@ def transpile_token(
         elif "+" in parts:
             parts = parts + "* I"
 
+        if "." in parts:
+            # nsimplify looks for a "nice" closed form (0.3333333333333333
+            # became 1/3, 1.4142135623730951 became sqrt(2)); a decimal
+            # literal denotes exactly digits/10^k
+            return indent_str(
+                f'stack.append(sympy.sympify("{parts}", rational=True))', indent
+            )
         return indent_str(f'stack.append(sympy.nsimplify("{parts}"))', indent)
     elif token.name == TokenType.GENERAL:
         return indent_str(elements.get(token.value, ("pass\n", -1))[0], indent)
